@@ -31,8 +31,9 @@ pub struct World {
 pub fn build_world(case: &GraphCase) -> World {
     let mut programs = HashMap::new();
     let mut prog_addr = Vec::new();
-    for p in &case.programs {
-        let prog = Program(refasm::encode(p));
+    for (pi, p) in case.programs.iter().enumerate() {
+        let bytes = case.raw_programs.iter().find(|(i, _)| *i == pi).map(|(_, b)| b.clone()).unwrap_or_else(|| refasm::encode(p));
+        let prog = Program(bytes);
         let a = essential_hash::content_addr(&prog);
         prog_addr.push(a.0);
         programs.insert(a, Arc::new(prog));
